@@ -606,6 +606,60 @@ def admits(fam, ty, v):
         return 'leak:' + type(e).__name__
 
 
+def holders_for(ty):
+    """containers with a member of type `ty` named 'x' (records also in the shape with an open-type field elsewhere)"""
+    from pyasn1.type import opentype
+    ot = opentype.OpenType('gov', {1: univ.Integer(), 2: univ.OctetString()})
+    nt = namedtype.NamedType
+    plain = namedtype.NamedTypes(nt('gov', univ.Integer()), nt('x', ty))
+    withopen = namedtype.NamedTypes(nt('gov', univ.Integer()), nt('x', ty), nt('blob', univ.Any(), openType=ot))
+    withopen_first = namedtype.NamedTypes(nt('x', ty), nt('gov', univ.Integer()), nt('blob', univ.Any(), openType=ot))
+    return [('seq', univ.Sequence(componentType=plain), 'name'),
+            ('set', univ.Set(componentType=plain), 'name'),
+            ('seq+opentype', univ.Sequence(componentType=withopen), 'name'),
+            ('set+opentype', univ.Set(componentType=withopen), 'name'),
+            ('seq+opentype-first', univ.Sequence(componentType=withopen_first), 'name'),
+            ('choice', univ.Choice(componentType=namedtype.NamedTypes(nt('gov', univ.Integer()), nt('x', ty))), 'name'),
+            ('seqof', univ.SequenceOf(componentType=ty), 'pos'),
+            ('setof', univ.SetOf(componentType=ty), 'pos')]
+
+
+def check_foreign_assignment(rep, fam, types, exprs, i, j, v, case):
+    """vobj: a value object of ancestor type i holding v, which descendant type j rejects"""
+    try:
+        vobj = value_object(fam, types[i], v)
+    except Exception:  # noqa
+        return
+    for name, holder, how in holders_for(types[j]):
+        rep.count('foreign-assignments')
+        apis = (['byname', 'setitem', 'bypos'] if how == 'name' else ['bypos', 'append'])
+        for api in apis:
+            h = holder.clone()
+            try:
+                if api == 'byname':
+                    h.setComponentByName('x', vobj)
+                elif api == 'setitem':
+                    h['x'] = vobj
+                elif api == 'append':
+                    h.append(vobj)
+                else:
+                    h.setComponentByPosition(h.componentType.getPositionByName('x') if how == 'name' else 0, vobj)
+            except error.PyAsn1Error:
+                continue
+            except (KeyError, IndexError):
+                if api in ('setitem', 'append'):     # the dict / list protocol reports the refusal this way
+                    continue
+                raise
+            except Exception as ex:  # noqa
+                rep.fail('foreign-assign-leak-' + type(ex).__name__, '%s via %s raised %s' % (name, api, ex),
+                         dict(case, i=i, j=j, holder=name, api=api, value=val_sexp(v)))
+                continue
+            rep.fail('assignment-bypasses-constraint:' + name,
+                     'a value object of ancestor type %d holding %s was stored via %s where descendant type %d (which '
+                     'rejects that value) is expected' % (i, val_sexp(v), api, j),
+                     dict(case, i=i, j=j, holder=name, api=api, value=val_sexp(v)))
+
+
 def model_super(rep, drv, p, q, code_sup, code_sub, code_eq, what):
     ans = drv.ask('CONSTR_SUPER %s %s' % (sexp(p), sexp(q)))
     rep.corr_checked += 1
@@ -692,6 +746,17 @@ def check_chain(rep, drv, rng, fam, c0, style, steps):
                          dict(case, value=val_sexp(v), j=j))
         if acc[k] == 'accept' and admitted is None:
             admitted = v
+        # the other direction: a value object of an ancestor type whose value a descendant's constraints reject must
+        # not end up stored where the descendant is expected, whatever the container looks like
+        if fam in ('int', 'bytes', 'str'):
+            for j in range(1, k + 1):
+                if acc[j] != 'reject' or not applicable(exprs[j], v) or [p for p in implicit_at if p <= j]:
+                    continue
+                srcs = [i for i in range(j) if acc[i] == 'accept']
+                if not srcs:
+                    continue
+                check_foreign_assignment(rep, fam, types, exprs, srcs[-1], j, v, case)
+                break
     # a value of the most derived type goes where any ancestor is expected
     if admitted is not None and k >= 1:
         try:
